@@ -178,3 +178,71 @@ def oracle_kinarow(ctx, budget_s):
                         ctx.fail("%s(k=%d) on %d trials: assignment %s is %s by the encoding but its runs are %s" % (
                             kind, k, n, [int(b) for b in bits], "accepted" if holds else "rejected", runs(bits)), {"kind": kind, "k": k, "n": n})
                         return
+
+
+# ------------------------------------------------------- I9k mismatch side
+
+class _StubRanges:
+    """A block whose only repetition window is the whole list."""
+
+    def __init__(self, n):
+        self.n = n
+
+    def map_block_trial_ranges(self, within_block, proc):
+        return [proc(0, self.n)]
+
+
+def corr_conforms(ctx):
+    import itertools
+    d = ctx.drv()
+    ctx.rules.append("I9k: _KInARow.potential_sample_conforms (AtMost/AtLeast/ExactlyKInARow, ExactlyK) on a stub "
+                     "block with one range vs SPModel.Conform.conformsRange, every level sequence of length 0..7 over "
+                     "two levels and k in 1..5")
+    c = sp.Factor("c", ["r", "g"])
+    r, g = c.get_level("r"), c.get_level("g")
+    classes = {"atmost": sp.AtMostKInARow, "atleast": sp.AtLeastKInARow, "exactlyinarow": sp.ExactlyKInARow, "exactlyk": sp.ExactlyK}
+    for kind, cls in classes.items():
+        for k in range(1, 6):
+            obj = cls(k, (c, "r"))
+            for n in range(0, 8 if ctx.big() else 7):
+                for bits in itertools.product([False, True], repeat=n):
+                    sample = {c: [r if b else g for b in bits]}
+                    py = bool(obj.potential_sample_conforms(sample, _StubRanges(n)))
+                    le = d.ask({"op": "conform", "m": "conforms", "kind": kind, "k": k, "xs": list(bits)})["ok"]
+                    ctx.count("I9k." + kind)
+                    ctx.case(("I9k", kind, k, bits), n > 0)
+                    if py != le:
+                        ctx.corr_break("I9k." + kind, {"k": k, "xs": list(bits)}, py, le)
+                        return
+
+
+def corr_sharing(ctx):
+    """init_within_block: the geometry a shared constraint object carries vs SPModel.Conform.afterBlocks."""
+    d = ctx.drv()
+    rng = ctx.rng
+    ctx.rules.append("I6s: a constraint object given to 1-3 blocks of different sizes in a random order: its "
+                     "within_block (trials, preamble) vs SPModel.Conform.afterBlocks")
+    for it in range(60 if ctx.big() else 25):
+        c = sp.Factor("c", ["r", "g"])
+        s = sp.Factor("s", ["a", "b", "x"][:rng.choice([2, 3])])
+        t = sp.Factor("t", [sp.DerivedLevel("same", sp.Transition(lambda v: v[0] == v[-1], [c])),
+                            sp.DerivedLevel("diff", sp.Transition(lambda v: v[0] != v[-1], [c]))])
+        kind = rng.choice([sp.AtMostKInARow, sp.AtLeastKInARow, sp.ExactlyK, sp.ExactlyKInARow])
+        obj = kind(rng.randint(1, 3), (c, "r")) if rng.random() < 0.8 else sp.Pin(rng.randint(0, 2), (c, "r"))
+        shapes = [([c], [c]), ([c, s], [c, s]), ([c, s], [s]), ([c, t], [c, t]), ([c, s, t], [s, t])]
+        order = [rng.choice(shapes) for _ in range(rng.randint(1, 3))]
+        gs = []
+        try:
+            for design, crossing in order:
+                extra = [sp.MinimumTrials(rng.choice([1, 5, 7]))] if rng.random() < 0.4 else []
+                b = quiet(sp.CrossBlock, design, crossing, [obj] + extra)
+                geo = b.get_geometry(0)
+                gs.append([geo.num_trials, geo.preamble_size])
+        except Exception:
+            continue
+        py = [obj.within_block.num_trials, obj.within_block.preamble_size]
+        le = d.ask({"op": "conform", "m": "after_blocks", "gs": gs})["ok"]
+        ctx.count("I6s.sharing")
+        ctx.case(("I6s", repr(gs)), len(gs) > 1)
+        if py != le:
+            ctx.corr_break("I6s.init_within_block", {"gs": gs}, py, le)
